@@ -126,6 +126,9 @@ X87 = ["d9%02x" % m for m in range(0xE0, 0x100)] + ["ded9", "dae9", "d8d9", "d8c
 
 
 # rep-prefixed string instructions with the set-up that makes their count concrete; state dictionaries for the shared-dictionary probe
+# string instructions and xlat without a repeat prefix, alone and under the address-size / operand-size prefixes: forms of one mnemonic share
+# pointer-update helpers and step constants, so a memo keyed too coarsely shows only when two of them are lifted in one process (seed C11-r9-2)
+STRS = ["a4", "67a4", "a5", "67a5", "66a5", "aa", "67aa", "ab", "67ab", "66ab", "ad", "67ad", "ae", "67ae", "a7", "67a7", "d7", "67d7"]
 REPS = ["b903000000", "b901000000", "be00200000", "bf00300000", "b041", "f3a4", "f3a5", "f3aa", "f3ab", "f3a6", "f2ae", "f3ac", "89ca", "89cb", "51", "59", "49", "e2fe"]
 SHARED_REGS = [{"ecx": 3, "df": 0}, {"ecx": 0, "df": 0}, {"ecx": 2, "df": 1, "eax": 0x41}, {"ecx": 1, "df": 0, "esi": 0x2000, "edi": 0x3000}, {"eax": 7, "ebx": 9}]
 # assembly lines that share their operand TEXT across mnemonics, among them the contexts in which the assembler adjusts a parsed operand
@@ -155,8 +158,8 @@ def lift_pairs(pool):
     family share a mnemonic, an implicit operand or a helper, so whatever the first lift leaves behind is what the second would pick up"""
     out = []
     fams = families(pool)
-    for f in ("returns", "x87-stack", "rep", "moves", "accumulator"):
-        ms = fams.get(f, [])[:24 if f == "returns" else 16]
+    for f in ("returns", "x87-stack", "rep", "moves", "accumulator", "strings"):
+        ms = fams.get(f, [])[:24 if f in ("returns", "strings") else 16]
         for a in ms:
             for b in ms:
                 if a != b:
@@ -200,7 +203,7 @@ def w_pairs(run, st_, k, chunk):
 
 def families(pool):
     """groups of byte strings whose decodings share table rows / helper results (same implicit operand, same sub-register objects)"""
-    fams = {"rep": [x for x in REPS if x in pool], "accumulator": [x for x in ACC if x in pool], "x87": [x for x in X87 if x in pool], "returns": [x for x in RETS if x in pool], "moves": [x for x in MOVES if x in pool],
+    fams = {"rep": [x for x in REPS if x in pool], "accumulator": [x for x in ACC if x in pool], "x87": [x for x in X87 if x in pool], "returns": [x for x in RETS if x in pool], "moves": [x for x in MOVES if x in pool], "strings": [x for x in STRS if x in pool],
             "x87-stack": [x for x in ("d9f7", "d9f6", "d9f1", "d9f3", "d9f9", "d8d9", "ddd9", "dae9", "ded9", "dec1", "d9c9") if x in pool],
             "subreg": [x for x in pool if len(x) in (4, 6) and x[:2] in ("88", "8a", "86", "00") or x[:4] in ("6689", "0fb6", "6601")]}
     return dict((k, v) for k, v in fams.items() if v)
@@ -289,7 +292,7 @@ def pools(run):
     # implicit-accumulator and x87 forms (operands come from shared descriptors / helper lists), and
     # sub-register forms: their operands are the shared slice objects of the register tables
     with runner.quiet():
-        for x in ACC + X87 + RETS + MOVES + REPS + ["fc", "fd"]:
+        for x in ACC + X87 + RETS + MOVES + REPS + STRS + ["fc", "fd"]:
             try:
                 if x86mnemo.dis(bytes.fromhex(x)) is not None:
                     bs.append(x)
